@@ -30,6 +30,9 @@ RULE = ("rule: every configuration (fcst dims, obs dims, weights dims|None, redu
         "rule returns a set (not an error) or the call returns a value")
 
 
+# counters that every complete run must have incremented (harness self-check, see core.run_check)
+EXPECT_COUNTS = ['fn:', 'recipe:', 'manager_multistep', 'gather_exhaustive_configs', 'gather_sampled', 'gather_after_calls', 'weights_with_own_dim']
+
 def utils():
     import scores.utils as U
     return U
@@ -210,6 +213,7 @@ def recipe_functions(ctx):
                 wd = [d for d in dd if rng.random() < 0.5] + ["wx"]
                 w = gens.rand_da(rng, dict({d: xs[0].sizes[d] if d in xs[0].dims else xs[1].sizes[d] for d in dd}, wx=2), dims=wd, lo=1, hi=3, shuffle=False)
                 w = w.assign_coords({d: (xs[0][d] if d in xs[0].dims else xs[1][d]) for d in wd if d != "wx"})
+                ctx.count("weights_with_own_dim")
                 if rc.fwd_weights:
                     dd = dd + ["wx"]
 
@@ -282,6 +286,7 @@ def recipe_functions(ctx):
                 for rep in (tuple, list):
                     got = core.call_impl(U.gather_dimensions, rep(fd), rep(od), **kwg)
                     ctx.case((rc.name, "gather-after", fd, od, repr(kwg), rep.__name__))
+                    ctx.count("gather_after_calls")
                     if got[0] != "ok" or set(got[1]) != want:
                         ctx.violation(f"gather_dimensions({list(fd)}, {list(od)}, {kwg}) asked after {rc.name} ran on arrays with these dimensions "
                                       f"returns {sorted(got[1]) if got[0] == 'ok' else got[1]}, not {sorted(want)}",
